@@ -53,6 +53,9 @@ def mon_c08(world, ev, before, rec, after, third_party_refs=None):
     out = []
     b, a = before['refs'], after['refs']
     expected = dict(b)
+    fault = rec.get('fault') or {}
+    if third_party_refs is None and fault.get('mode') == 'third_party' and fault.get('fired'):
+        third_party_refs = fault.get('result')
     if third_party_refs:
         expected.update(third_party_refs)      # state the third party left behind
     deleting = ev.get('e') == 'job_api' and ev.get('kind') == 'delete_branch'
